@@ -74,8 +74,50 @@ def _model_dict(m):
     return out
 
 
+Z3_CLI = "z3-new"          # the z3-solver wheel's CLI (same 5.1.0 build as the Python API)
+
+
+def _solve_cli(smt2, timeout_ms, seed=0):
+    """z3 as a sub-process with a hard wall-clock limit (the in-process API occasionally fails to honour its own
+    timeout on quantifier-heavy queries, which would hang a pool worker for good)."""
+    t0 = time.time()
+    sec = max(1, int((timeout_ms + 999) // 1000))
+    d = "/dev/shm" if os.path.isdir("/dev/shm") else None
+    with tempfile.NamedTemporaryFile("w", suffix=".smt2", delete=False, dir=d) as f:
+        f.write(smt2)
+        path = f.name
+    try:
+        cmd = [Z3_CLI, "-T:%d" % sec, "smt.random_seed=%d" % seed, path]
+        try:
+            p = subprocess.run(cmd, capture_output=True, text=True, timeout=sec + 10)
+            out = (p.stdout or "").strip().splitlines()
+            r = out[0].strip() if out else "unknown"
+        except subprocess.TimeoutExpired:
+            r = "timeout"
+        if r not in ("sat", "unsat"):
+            return "unknown", None, time.time() - t0, "timeout" if r == "timeout" else r[:80]
+        return r, None, time.time() - t0, ""
+    finally:
+        try:
+            os.unlink(path)
+        except OSError:
+            pass
+
+
 def _solve(smt2, timeout_ms, tactic, want_model, seed=0):
+    if tactic is None:
+        r, _, t, reason = _solve_cli(smt2, timeout_ms, seed)
+        if r != "sat" or not want_model:
+            return r, ({} if r == "sat" else None), t, reason
+        # satisfiable: fetch the model through the API (quick for satisfiable queries; watchdog below)
+        r2, model, t2, reason2 = _solve_api(smt2, min(timeout_ms, 15000), None, True, seed)
+        return "sat", (model if r2 == "sat" and model is not None else {}), t + t2, reason
+    return _solve_api(smt2, timeout_ms, tactic, want_model, seed)
+
+
+def _solve_api(smt2, timeout_ms, tactic, want_model, seed=0):
     import z3 as Z
+    import threading
     t0 = time.time()
     try:
         # a fresh context per query: z3's search order depends on AST identifiers, i.e. on everything the context
@@ -89,7 +131,13 @@ def _solve(smt2, timeout_ms, tactic, want_model, seed=0):
         if seed:
             s.set("random_seed", seed)
         s.from_string(smt2)
-        r = s.check()
+        wd = threading.Timer(timeout_ms / 1000.0 + 5.0, ctx.interrupt)
+        wd.daemon = True
+        wd.start()
+        try:
+            r = s.check()
+        finally:
+            wd.cancel()
         res = str(r)
         model = None
         if r == Z.sat and want_model:
